@@ -30,3 +30,7 @@ add("C17","exploration",
     "Held on every shutdown scenario produced (one real pgcat process each): idle clients get the administrator-command error, in-flight transactions with work that fits the timeout complete with correct rows, late non-admin logins are refused and admin logins admitted, process exits promptly once clients have left / within the bound / immediately on SIGTERM (waitpid in the parent).",
     "Trusted: 'Got SIGINT' log line is used only to order login attempts after the signal was processed; session-mode clients are outside the property's wording.",
     "runtime monitoring: parent-side waitpid + per-population client observations", "DESIGN.md 5 C17")
+add("C12","exploration",
+    "Held on every snapshot statement produced (thousands per run): the mock backend's client_encoding/DateStyle/TimeZone/standard_conforming_strings/application_name at the statement equal what the client had been told in ParameterStatus, for values with quotes, backslashes, semicolons, comments, non-ASCII and long values, across hand-overs between clients with different settings; startup values are told back unchanged.",
+    "Trusted: mock GUC semantics (DESIGN 2.2) store values verbatim; SETs inside transaction blocks are not generated.",
+    "runtime monitoring: GUC snapshot on mock backend per statement vs client-side ParameterStatus ledger", "DESIGN.md 5 C12")
